@@ -96,6 +96,18 @@ func c07Default(c *cx) {
 		"!local:*<*xmpp.responseChecker>.wroteResp",
 		"eq(" + hn + ",nil)",
 	})
+	// ... and by nothing else: "for any from / to" - the reply does not depend on
+	// whom the request was addressed to, nor on anything but the four facts
+	// (plus the outcome of parsing the sender's address, which decides only
+	// the reply's addressee, and the licences of the paths that lead here)
+	c.onlyFacts(id, f, cp, "default reply for every unanswered request", []string{
+		"xmpp.isIQ(*.Name)",
+		"or(eq(xmpp.getIDTyp(*.Attr)#3,\"get\") | eq(xmpp.getIDTyp(*.Attr)#3,\"set\"))",
+		"!local:*<*xmpp.responseChecker>.wroteResp",
+		"eq(" + hn + ",nil)",
+		"eq(*TokenReader.Token[*]()#1,nil)",
+		"istype(*TokenReader.Token[*]()#0;encoding/xml.StartElement)",
+	})
 	// the converse: once an unanswered get/set IQ is established, every way
 	// out that is not an error return writes the reply (a path that gives up
 	// on the addressee and carries on leaves the request unanswered)
@@ -124,18 +136,19 @@ func c07Default(c *cx) {
 		c.r.Check(id, f, "unanswered get/set always answered or the stream fails", "S: from the edge that establishes an unanswered get/set IQ every non-error exit passes the default reply", g.Blocks[ce.E.B].Nodes[len(g.Blocks[ce.E.B].Nodes)-1].Pos(), bad == "", bad)
 	}
 	// what counts as an IQ: the element name iq in one of the two stanza namespaces
-	for name, want := range map[string]string{
-		"isIQ":           `and(eq(p0.Local,"iq") & or(eq(p0.Space,stanza.NSClient) | eq(p0.Space,stanza.NSServer)))`,
-		"isIQEmptySpace": `and(eq(p0.Local,"iq") & or(eq(p0.Space,"") | eq(p0.Space,stanza.NSClient) | eq(p0.Space,stanza.NSServer)))`,
-	} {
-		if tf := c.fn(id, "", name); tf != nil {
-			got := ""
-			for _, rs := range tf.Graph().Returns {
-				if len(rs.Results) == 1 {
-					got = tf.Graph().Formula(rs.Results[0], true, tf.Graph().Entry()).String()
-				}
-			}
-			c.r.Check(id, tf, "name table", "T: "+name+" is exactly the element name iq in the stanza namespaces (other elements never trigger the automatic reply)", tf.Pos(), got == want, "table is "+got)
+	// (E-fin decision tables)
+	for _, t := range []struct {
+		name  string
+		empty bool
+	}{{"isIQ", false}, {"isIQEmptySpace", true}} {
+		if tf := c.fn(id, "", t.name); tf != nil {
+			empty := t.empty
+			predTable(c, id, tf, "name table", map[string][]string{
+				"p0.Local": {"iq", "message", "presence", "", "other"},
+				"p0.Space": {"", "jabber:client", "jabber:server", "other:ns"},
+			}, func(e predCase) bool {
+				return e["p0.Local"] == "iq" && (e["p0.Space"] == "jabber:client" || e["p0.Space"] == "jabber:server" || (empty && e["p0.Space"] == ""))
+			}, t.name+" is exactly the element name iq in the stanza namespaces (other elements never trigger the automatic reply)")
 		}
 	}
 	// literal of the reply
@@ -553,6 +566,16 @@ func c07ServeEOFAs(c *cx, id string) {
 		c.r.Check(id, f, "silent end of Serve", "G: after a step, Serve returns without a stream error only on the edge 'handleInputStream(...) == io.EOF' (identity, not errors.Is: wrapped EOFs come from handlers)", rs.Pos(), okd, why)
 	}
 	c.r.Floor(id, "silent returns after a step in Serve", n, 1)
+	// ... and Serve goes on to the next element only after a step that
+	// returned nil: any other error - a timeout reported by the handler or by
+	// the flush of its reply included - ends the stream with a stream error
+	// (the request it belongs to may be unanswered)
+	cut := eng.Cut{}
+	for _, ce := range g.EdgesMatching("eq(" + hn + ",nil)") {
+		cut[ce.E] = true
+	}
+	back := g.Reachable(g.After(hpt), hpt, cut, nil)
+	c.r.Check(id, f, "next step only after a nil error", "G: the serve loop reaches its next step from handleInputStream only through the edge 'handleInputStream(...) == nil'", hc.Pos(), len(cut) > 0 && !back, "the loop continues after a step that returned an error: the stream is not terminated and an unanswered request stays unanswered")
 }
 
 // c07DetectorCountsAcceptedTokens (C07.11): the reply detector records what
